@@ -573,6 +573,11 @@ pub(crate) fn run(
                         if state.get(0) > slot1 {
                             state.save(0, slot1);
                         }
+                        // With keep out inside a look-behind, the match start can be before
+                        // the position where the search started. Cap the start to >= pos.
+                        if state.get(0) < pos {
+                            state.save(0, pos);
+                        }
                     }
                     return Ok(Some(state.saves));
                 }
